@@ -536,7 +536,18 @@ impl<'a> From<OutputEvent> for Event<'a> {
         match svg_ev {
             OutputEvent::Empty(e) => Event::Empty(e.into_bytesstart()),
             OutputEvent::Start(e) => Event::Start(e.into_bytesstart()),
-            OutputEvent::Comment(t) => Event::Comment(BytesText::from_escaped(t)),
+            OutputEvent::Comment(t) => {
+                // Comments can't contain '--' or end with '-'; generated comments (debug
+                // output, '_' attributes) derive from arbitrary attribute values.
+                let mut t = t;
+                while t.contains("--") {
+                    t = t.replace("--", "- -");
+                }
+                if t.ends_with('-') {
+                    t.push(' ');
+                }
+                Event::Comment(BytesText::from_escaped(t))
+            }
             OutputEvent::Text(t) => Event::Text(BytesText::from_escaped(t)),
             OutputEvent::CData(t) => Event::CData(BytesCData::new(t)),
             OutputEvent::End(name) => Event::End(BytesEnd::new(name)),
